@@ -402,7 +402,8 @@ func parseSubscriptArg(lex *lexer.PeekingLexer) (*SubscriptArgument, error) {
 }
 
 func nodeMetaFromPosition(pos lexer.Position) NodeMeta {
-	return NodeMeta{}
+	// relative to the start of the expression; ParseExpression adds the position of the host node
+	return NodeMeta{Line: pos.Line, Column: pos.Column}
 }
 
 func getLexerPosFromNodeMeta(meta NodeMeta) lexer.Position {
